@@ -726,6 +726,14 @@ def obj_ptr_methods : List String :=
 def obj_ptr_effects : List String :=
   ["Set:writes"]
 
+/-- declarations of the verification hooks files (verif build only; not translated): they may only add accessors -/
+def hook_decls : List String :=
+  ["zz_verif_hooks.go:func VerifBytes", "zz_verif_hooks.go:func VerifFromBytes", "zz_verif_hooks.go:func VerifLenVec", "zz_verif_hooks.go:func VerifPoolGet", "zz_verif_hooks.go:func VerifPoolPut", "zz_verif_hooks.go:func VerifRound", "zz_verif_hooks.go:func VerifSplit"]
+
+/-- files of the package directory that belong to neither the ordinary nor the verif build, and non-Go sources -/
+def pkg_other_files : List String :=
+  []
+
 /-- `init` functions of the package (file:init) -/
 def pkg_inits : List String :=
   []
@@ -745,6 +753,14 @@ def pkg_writes : List String :=
 /-- function:variable.method for every method call on a package-level variable; function:go for goroutine starts -/
 def pkg_calls : List String :=
   ["ParseVector:splitPool.Get", "ParseVector:splitPool.Put"]
+
+/-- package-level variables (blank ones included) whose initialiser runs code: name:calls and function literals in it -/
+def pkg_var_inits : List String :=
+  ["ErrInvalidMetricOrder:call errors.New", "ErrInvalidMetricValue:call errors.New", "ErrTooShortVector:call errors.New", "splitPool:call make,funclit"]
+
+/-- function:variable for every mention of a package-level variable (other than the `error` sentinels) in a function body or initialiser -/
+def pkg_var_uses : List String :=
+  ["ParseVector:order", "ParseVector:splitPool"]
 
 /-- sync.Pool variables and what their `New` makes -/
 def pool_new : List String :=
